@@ -35,7 +35,7 @@ func init() {
 	Register(&Unit{Prop: "C18", Name: "diagram-listing",
 		Shards: func(tier string) int { return map[string]int{"quick": 8, "thorough": 16}[tier] },
 		Run: func(c *Ctx) {
-			c.Rapid("draw", c.Pick(1200, 30000), func(t *rapid.T) {
+			c.Rapid("draw", c.Pick(5000, 60000), func(t *rapid.T) {
 				gc := DrawGrammar(t, []string{"uniform", "productive", "nullable", "separators", "lalr", "prec", "productive-small"})
 				if rapid.Bool().Draw(t, "rename") {
 					spec.WithNames(t, gc.Spec)
